@@ -70,7 +70,7 @@ def tlc(ctx, cfg, module, workers=12, timeout=900, simulate=None, depth=None, en
     uid = next(_COUNTER)           # unique also when several TLC processes are started from threads
     meta = os.path.join(ctx.scratch, f"tlc-{name}-{uid}")
     out = os.path.join(ctx.scratch, f"tlc-{name}-{uid}.out")
-    cmd = ["java", "-Xss1g", "-XX:+UseParallelGC"]
+    cmd = ["java", "-Xss1g", "-XX:+UseParallelGC", "-Djava.io.tmpdir=" + ctx.scratch]     # TLC leaves an (empty) tlc-<n> directory in the JVM's tmpdir per run
     if jvm:
         cmd += jvm
     cmd += ["-cp", TLA_CP, "tlc2.TLC", "-workers", str(workers), "-metadir", meta, "-cleanup", "-noGenerateSpecTE",
@@ -940,13 +940,15 @@ def setup():
         log(f"TOOL-ERROR: {e}")
         return 2
     bad = 0
+    tmpd = tempfile.mkdtemp(prefix="hpo-verif-sany.")
     for f in sorted(glob.glob(os.path.join(SPEC, "*.tla")) + glob.glob(os.path.join(SPEC, "mc", "*.tla")) + glob.glob(os.path.join(SPEC, "trace", "*.tla"))):
-        r = subprocess.run(["java", "-cp", TLA_CP, "tla2sany.SANY", f], cwd=SPEC, stdout=subprocess.PIPE, stderr=subprocess.STDOUT, text=True)
+        r = subprocess.run(["java", "-Djava.io.tmpdir=" + tmpd, "-cp", TLA_CP, "tla2sany.SANY", f], cwd=SPEC, stdout=subprocess.PIPE, stderr=subprocess.STDOUT, text=True)
         okay = r.returncode == 0 and "Semantic errors" not in r.stdout and "*** Errors" not in r.stdout
         log(f"[sany] {os.path.relpath(f, VERIF)}: {'ok' if okay else 'FAILED'}")
         if not okay:
             bad += 1
             log(r.stdout[-1500:])
+    shutil.rmtree(tmpd, ignore_errors=True)
     return 2 if bad else 0
 
 
